@@ -537,6 +537,85 @@ components:
 `,
 	}}})
 
+	// ---- two external files that use the same component names (and pointers) for different things
+	out = append(out, craftedDoc{id: "crafted/two-external-files-same-component-names", fs: FileSet{Root: "root.yaml", Files: map[string]string{
+		"root.yaml": head30 + `paths:
+  /books/{id}:
+    get:
+      operationId: getBook
+      parameters: [{$ref: 'books.yaml#/components/parameters/Id'}]
+      responses:
+        "200":
+          description: ok
+          content:
+            application/json:
+              schema: {$ref: 'books.yaml#/components/schemas/Item'}
+  /films/{id}:
+    get:
+      operationId: getFilm
+      parameters: [{$ref: 'films.yaml#/components/parameters/Id'}]
+      responses:
+        "200":
+          description: ok
+          content:
+            application/json:
+              schema: {$ref: 'films.yaml#/components/schemas/Item'}
+`,
+		"books.yaml": `components:
+  parameters:
+    Id: {name: id, in: path, required: true, schema: {type: integer}}
+  schemas:
+    Item: {type: object, required: [isbn], properties: {isbn: {type: string}, pages: {type: integer}}}
+`,
+		"films.yaml": `components:
+  parameters:
+    Id: {name: id, in: path, required: true, schema: {type: string, format: uuid}}
+  schemas:
+    Item: {type: object, required: [title], properties: {title: {type: string}, minutes: {type: number}}}
+`,
+	}}})
+
+	// ---- every operation answers errors with one shared default response (convenient errors): by reference,
+	// and - in the twins - partly by reference and partly inline
+	out = append(out, single("shared-default-response-by-reference", head30+`paths:
+  /a:
+    get:
+      operationId: a
+      responses:
+        "200": {description: ok}
+        default: {$ref: '#/components/responses/Err'}
+  /b:
+    post:
+      operationId: b
+      responses:
+        "204": {description: ok}
+        default: {$ref: '#/components/responses/Err'}
+  /c:
+    delete:
+      operationId: c
+      responses:
+        "200":
+          description: ok
+          content:
+            application/json:
+              schema: {type: string}
+        default: {$ref: '#/components/responses/Err'}
+components:
+  responses:
+    Err:
+      description: error
+      content:
+        application/json:
+          schema: {$ref: '#/components/schemas/Error'}
+  schemas:
+    Error:
+      type: object
+      required: [code]
+      properties:
+        code: {type: integer}
+        message: {type: string}
+`))
+
 	// ---- breadth, not depth: more sibling references in one place than the depth limit (1000) allows levels.
 	// The limit bounds nesting; a flat document with many references must parse like its inlined twin.
 	for _, n := range []int{40, 1100} {
